@@ -41,6 +41,11 @@ def _variants(base):
 
 FAULT_VARIANTS = _variants(FaultA)
 VALIDATOR_VARIANTS = _variants(ValidatorError)
+# StopIteration is control flow for iterators (all(map(...)) would take it as "exhausted"); only raised
+# from synchronous callables of synchronous machines (inside a coroutine Python itself turns it into
+# RuntimeError, PEP 479)
+VALIDATOR_STOP = type("ValidatorError", (ValidatorError, StopIteration), {"__module__": ValidatorError.__module__})
+FAULT_STOP = type("FaultA", (FaultA, StopIteration), {"__module__": FaultA.__module__})
 
 
 class Sent:
@@ -163,9 +168,16 @@ class Recorder:
             info["depth"] = frame_depth()
         return info
 
+    allow_stop_iteration = False
+
+    def _validator_class(self):
+        pool = VALIDATOR_VARIANTS + ([VALIDATOR_STOP] if self.allow_stop_iteration else [])
+        return pool[len(self.log) % len(pool)]
+
     def _fault_class(self, inv):
         if self.fault_exc is FaultA:
-            return FAULT_VARIANTS[inv % len(FAULT_VARIANTS)]
+            pool = FAULT_VARIANTS + ([FAULT_STOP] if self.allow_stop_iteration else [])
+            return pool[inv % len(pool)]
         return self.fault_exc
 
     def _fault_due(self):
@@ -296,7 +308,7 @@ class Recorder:
             state=getattr(kwargs.get("state"), "id", None),
         )
         if v == "raise":
-            raise VALIDATOR_VARIANTS[len(self.log) % len(VALIDATOR_VARIANTS)](gid)
+            raise self._validator_class()(gid)
         return v
 
     async def aguard(self, gid, name, kwargs=None):
@@ -325,7 +337,7 @@ class Recorder:
             t_dst=getattr(getattr(tr, "target", None), "id", None),
         )
         if v == "raise":
-            err = VALIDATOR_VARIANTS[len(self.log) % len(VALIDATOR_VARIANTS)](gid)
+            err = self._validator_class()(gid)
             self.emit("validator_raise", g=gid, excid=id(err))
             raise err
         return None
